@@ -87,7 +87,7 @@ def describe(tier):
 
 def cases(tier):
     out = []
-    pdts = ["same"] if tier == "quick" else ["same", "other"]
+    pdts = ["same"] if tier == "quick" else ["same", "other", "int"]
     for kind, cls, shape, dt, pdt, extras, red, bal, res, mod, order in itertools.product(
         ["scalar", "rgb"], ["special", "generic"], SHAPES[tier], DTYPES, pdts, [0, 1, 2, 3], [0, 1], [0, 1], [0, 1], [0, 1], ORDERS
     ):
@@ -95,6 +95,14 @@ def cases(tier):
             {"fam": "stub", "kind": kind, "cls": cls, "shape": list(shape), "dtype": dt, "pdtype": pdt, "extras": extras,
              "red": red, "bal": bal, "res": res, "mod": mod, "order": order, "tier": tier}
         )
+    if tier == "quick":
+        # probe stored with another dtype class than the baseline (float baseline with integer probe
+        # and vice versa): a slice of what the thorough tier enumerates completely
+        for kind, shape, dt, red, mod, pdt_ in itertools.product(["scalar", "rgb"], SHAPES[tier], DTYPES, [0, 1], [0, 1], ["other", "int"]):
+            out.append(
+                {"fam": "stub", "kind": kind, "cls": "special", "shape": list(shape), "dtype": dt, "pdtype": pdt_, "extras": 0,
+                 "red": red, "bal": 0, "res": 0, "mod": mod, "order": ORDERS[0], "tier": tier}
+            )
     for kind, shape, dt, extras, red, bal, res, mod, order in itertools.product(
         ["scalar", "rgb"], SHAPES[tier], REAL_DTYPES[tier], [0, 2], REAL_RED, REAL_BAL[tier], REAL_RES, REAL_MOD, ORDERS
     ):
@@ -360,7 +368,8 @@ def run_case(case, r):
     fam, kind, cls = case["fam"], case["kind"], case["cls"]
     shape, dt, extras, order, tier = tuple(case["shape"]), case["dtype"], case["extras"], case["order"], case["tier"]
     rgb = kind == "rgb"
-    pdt = dt if case["pdtype"] == "same" else ("float32" if dt == "float64" else "float64")
+    # "other": another float type; "int": an integer probe (uint8 against float / uint16 baselines, uint16 against uint8)
+    pdt = {"same": dt, "other": "float32" if dt == "float64" else "float64", "int": "uint16" if dt == "uint8" else "uint8"}[case["pdtype"]]
     is_int = dt.startswith("uint") or pdt.startswith("uint")
     num, clean = ("int" if is_int else "float"), f"clean={'on' if extras else 'off'}"
     if fam == "stub":
